@@ -11,8 +11,10 @@ import (
 	"bytes"
 	"fmt"
 	"math"
+	"path/filepath"
 	"reflect"
 	"regexp"
+	"runtime"
 	"sort"
 	"strconv"
 	"strings"
@@ -30,6 +32,34 @@ import (
 func TestMain(m *testing.M) { pbt.Main(m, "C12") }
 
 func TestReplay(t *testing.T) { pbt.Replay(t) }
+
+// noPanic converts an unexpected panic inside Run into a violation whose message
+// is the same on every run (panic value + first golib frame). pbt would do the
+// conversion itself, but it appends a stack trace whose argument words differ
+// between runs, and rapid does not shrink a failure it cannot reproduce verbatim.
+func noPanic[C any](run func(C) *pbt.Result) func(C) *pbt.Result {
+	return func(c C) (r *pbt.Result) {
+		defer func() {
+			if p := recover(); p != nil {
+				site := "?"
+				pcs := make([]uintptr, 32)
+				frames := runtime.CallersFrames(pcs[:runtime.Callers(2, pcs)])
+				for {
+					f, more := frames.Next()
+					if strings.Contains(f.Function, "whatap/golib") {
+						site = fmt.Sprintf("%s (%s:%d)", f.Function, filepath.Base(f.File), f.Line)
+						break
+					}
+					if !more {
+						break
+					}
+				}
+				r = pbt.Fail("unexpected panic: %v, raised in %s", p, site)
+			}
+		}()
+		return run(c)
+	}
+}
 
 // hangLimit bounds calls that are known to be able to self-deadlock (F22).
 // It is a hang detector, not a performance bound: the guarded calls are
@@ -760,7 +790,7 @@ var specII = pbt.Register(pbt.Spec[IICase]{
 	Prop: "C12", Name: "intintmap",
 	Rule:  "IntIntMap: histories of 1-60 ops (put/add/add-if-exist/get/contains-key/contains-value/remove/clear/key+value arrays/three enumerators/sort/to-string/ToBytes+ToObject/IsEmpty/IsFull/SetMax, put and remove ranges) over a key alphabet of boundary values and same-bucket progressions, capacity 1..200 (biased small) x load factor 0.1..4 or the default constructor, NONE 0 or another sentinel, against a Go map; " + ntRule,
 	Quick: 20000, Thorough: 1000000,
-	Draw: drawII, Run: runII,
+	Draw: drawII, Run: noPanic(runII),
 })
 
 func TestIntIntMap(t *testing.T) { specII.Check(t) }
@@ -1099,7 +1129,7 @@ var specIK = pbt.Register(pbt.Spec[IKCase]{
 	Prop: "C12", Name: "intkeymap",
 	Rule:  "IntKeyMap: histories of 1-60 ops (put/get/contains-key/contains-value/remove/clear/KeyArray under a hang detector/three enumerators/to-string/to-format-string/put-all from a second map or nil, put and remove ranges), int and string values, same key alphabets, capacity 0..200 x load factor 0.1..4 or the default constructor, against a Go map; " + ntRule,
 	Quick: 20000, Thorough: 1000000,
-	Draw: drawIK, Run: runIK,
+	Draw: drawIK, Run: noPanic(runIK),
 })
 
 func TestIntKeyMap(t *testing.T) { specIK.Check(t) }
@@ -1300,7 +1330,7 @@ var specIS = pbt.Register(pbt.Spec[ISCase]{
 	Prop: "C12", Name: "intset",
 	Rule:  "IntSet (fixed 101 buckets, load 0.75): histories of 1-51 ops (put/contains/remove/clear/put-all of progressions, lists and nil/enumerate/to-string/remove ranges); 60% start with a progression of up to 300 elements whose step is 1, 7 or a multiple of the bucket counts, so growth past 75 elements and long chains are frequent; against a Go set; " + ntRule,
 	Quick: 20000, Thorough: 1000000,
-	Draw: drawIS, Run: runIS,
+	Draw: drawIS, Run: noPanic(runIS),
 })
 
 func TestIntSet(t *testing.T) { specIS.Check(t) }
@@ -1500,7 +1530,7 @@ var specSS = pbt.Register(pbt.Spec[SSCase]{
 	Prop: "C12", Name: "stringset",
 	Rule:  "StringSet (fixed 101 buckets, load 0.75, CRC-hashed): histories of 1-51 ops (put/unipoint/contains/has-key/remove/clear/enumerate, put and remove ranges prefix+number) over a pool of empty, ASCII, multi-byte and invalid-UTF-8 strings; the empty string is never stored (Put returns it, Contains/Remove answer false); 60% start with a range of up to 300 strings; against a Go set; " + ntRule,
 	Quick: 20000, Thorough: 1000000,
-	Draw: drawSS, Run: runSS,
+	Draw: drawSS, Run: noPanic(runSS),
 })
 
 func TestStringSet(t *testing.T) { specSS.Check(t) }
